@@ -198,6 +198,40 @@ class Scratch:
             f.write(line)
         self.overlay_log.append(f"{rel}: appended `#[cfg(kani)] #[path=contracts/kani/{modfile}] mod verif_kani_{stem};`")
 
+    def add_slice(self, sl):
+        """K-slice: verbatim statements of a method, appended as a `#[cfg(kani)]` method of the
+        same impl (header copied mechanically).  Drops everything else in the function."""
+        path = os.path.join(self.repo, sl["file"])
+        src = open(path).read()
+        body_src = strip_test_module(src)
+        s0, bo, e = find_item(src, sl["fn_anchor"], sl.get("within"))
+        body = body_src[bo:e]
+        stmts = []
+        for rx in sl["stmts"]:
+            ms = list(re.finditer(rx, body, re.S))
+            if len(ms) != 1:
+                raise AnchorLost(f"slice statement /{rx}/ matched {len(ms)} times in {sl['fn_anchor']}")
+            stmts.append(ms[0].group(0))
+        # enclosing impl header: nearest preceding line that starts with `impl`
+        hdr_start = body_src.rfind("\nimpl", 0, s0)
+        if hdr_start < 0:
+            raise AnchorLost("no enclosing impl for slice")
+        hdr_open = find_body_open(body_src, hdr_start + 1)
+        header = body_src[hdr_start + 1:hdr_open]
+        text = (f"\n// @@K-SLICE@@\n#[cfg(kani)]\n{header}{{\n    #[allow(dead_code, clippy::all)]\n    pub(crate) fn {sl['name']}({sl.get('params', '&self')}) -> {sl['ret']} {{\n        "
+                + "\n        ".join(stmts) + f"\n        {sl['result']}\n    }}\n}}\n")
+        with open(path, "a") as f:
+            f.write(text)
+        self.overlay_log.append(f"{sl['file']}: appended #[cfg(kani)] K-slice `{sl['name']}` = {len(stmts)} verbatim statement(s) of /{sl['fn_anchor']}/ (everything else in the function dropped)")
+        return [sha256(x) for x in stmts]
+
+    def drop_slices(self, rel):
+        path = os.path.join(self.repo, rel)
+        src = open(path).read()
+        i = src.find("\n// @@K-SLICE@@")
+        if i >= 0:
+            open(path, "w").write(src[:i] + "\n")
+
     def apply_edit(self, rel, old, new, count=1):
         """Used only for sanity mutants (thorough tier) on a scratch copy."""
         path = os.path.join(self.repo, rel)
